@@ -153,9 +153,10 @@ def run(ctx):
     ctx.ob('R1.3', 'core:v1-and-v2-readers-accept-the-same-encodings', r1 == r2, 'v1 %s | v2 %s' % (sorted(r1), sorted(r2)), 'fastparquet/core.py:1')
     ctx.ob('R1.3', 'writer.encode:emits-PLAIN-and-RLE_DICTIONARY', e_w == {'PLAIN', 'RLE_DICTIONARY'}, str(sorted(e_w)), wloc)
     v2 = core.func('read_data_page_v2')
-    first = v2.body[1] if isinstance(v2.body[0], ast.Expr) else v2.body[0]
+    firsts = [s for s in v2.body if isinstance(s, ast.If)]
+    first = firsts[0] if firsts else None
     ctx.ob('R1.3', 'core.read_data_page_v2:unknown-encoding-refused-up-front',
-           isinstance(first, ast.If) and 'not in' in norm(first.test) and isinstance(first.body[0], ast.Raise), '', core.loc(v2))
+           first is not None and 'not in' in norm(first.test) and isinstance(first.body[0], ast.Raise), '', core.loc(v2))
 
     # R1.4
     ie = wr.func('infer_object_encoding')
@@ -248,8 +249,10 @@ def r16(ctx, core):
     for need in ("assign.dtype.kind != 'O'", 'row_filter is None', 'data_header2.num_nulls == 0', 'max_rep == 0'):
         ctx.ob('R1.6', 'core.read_data_page_v2:in-place-path-requires:%s' % need, need in conj, str(conj), core.loc(d[0]))
     ci = ctx.repo['converted_types'].func('converts_inplace')
+    ifs = [s for s in ci.body if isinstance(s, ast.If)]
     ctx.ob('R1.6', 'converted_types.converts_inplace:booleans-never-in-place',
-           'se.type == parquet_thrift.Type.BOOLEAN' in norm(ci.body[1].test if isinstance(ci.body[0], ast.Expr) else ci.body[0].test), '', 'fastparquet/converted_types.py:1')
+           bool(ifs) and 'se.type == parquet_thrift.Type.BOOLEAN' in norm(ifs[0].test) and norm(ifs[0].body[0]) == 'return False',
+           '', 'fastparquet/converted_types.py:1')
 
 
 def _conjuncts(e):
